@@ -187,6 +187,9 @@ VF_DECL(t1_long)
 void t1_long(void) {
     struct in_t1_long IN = VF_IN(t1_long);
     VASSUME(IN.headlen <= KHEAD && IN.taillen <= KTAIL && IN.pad <= PADMAX);
+#ifdef PADFIX
+    IN.pad = PADFIX;        /* concrete filler length (the accent rules' nested skip loops do not scale with a symbolic one) */
+#endif
     static char key[KLONG + 1];
     unsigned n = 0;
     for (unsigned i = 0; i < KHEAD; ++i) if (i < IN.headlen) { VASSUME(IN.head[i] != '\0'); key[n++] = IN.head[i]; }
